@@ -125,7 +125,7 @@ func BuildJournal(source GtfsrtSource, startTime, endTime time.Time) *Journal {
 		newActiveTrips := map[string]bool{}
 		for _, tripUpdate := range feedMessage.Trips {
 			startTime := tripUpdate.ID.StartDate.Add(tripUpdate.ID.StartTime)
-			tripUID := fmt.Sprintf("%d%s", startTime.Unix(), tripUpdate.ID.ID[6:])
+			tripUID := buildTripUID(startTime, tripUpdate.ID.ID)
 			if existingTrip, ok := trips[tripUID]; ok {
 				existingTrip.update(&tripUpdate, createdAt)
 			} else {
@@ -168,6 +168,17 @@ func BuildJournal(source GtfsrtSource, startTime, endTime time.Time) *Journal {
 	return j
 }
 
+// buildTripUID returns the identifier of a trip in the journal: its start time followed by its
+// trip ID without the 6 character origin time prefix that NYCT trip IDs start with. Trip IDs
+// that are too short to have such a prefix are used as they are.
+func buildTripUID(startTime time.Time, tripID string) string {
+	suffix := tripID
+	if len(suffix) >= 6 {
+		suffix = suffix[6:]
+	}
+	return fmt.Sprintf("%d%s", startTime.Unix(), suffix)
+}
+
 func (trip *Trip) update(tripUpdate *gtfs.Trip, feedCreatedAt time.Time) {
 	if trip.IsAssigned && tripUpdate.Vehicle == nil {
 		// TODO: this seems to happen a lot, would be nice to figure out what's happening.
@@ -177,7 +188,7 @@ func (trip *Trip) update(tripUpdate *gtfs.Trip, feedCreatedAt time.Time) {
 	startTime := tripUpdate.ID.StartDate.Add(tripUpdate.ID.StartTime)
 	vehicle := tripUpdate.GetVehicle()
 
-	trip.TripUID = fmt.Sprintf("%d%s", startTime.Unix(), tripUpdate.ID.ID[6:])
+	trip.TripUID = buildTripUID(startTime, tripUpdate.ID.ID)
 	trip.TripID = tripUpdate.ID.ID
 	trip.RouteID = tripUpdate.ID.RouteID
 	trip.DirectionID = tripUpdate.ID.DirectionID
